@@ -313,6 +313,7 @@ func CheckC03(e *Env) int {
 	rep := NewReport(e, "C03", "fault_enumeration", "every error-capable provider of every explored injector is failed in turn (single faults, enumerated) plus alternating ok/fail sequences; per call the returned error identity, zero result, nil cleanup, absence of later provider calls, and exact reverse unwinding of acquired cleanups are checked against the log's own acquisition order; distinct = distinct feature signature")
 	progs := genPool(e, "f", e.tierN(120, 1500), stressTweak)
 	progs = append(progs, cleanupChains(e)...)
+	progs = append(progs, sameNameCleanupFamily()...)
 	progs = append(progs, errNameProgs(e)...)
 	progs = append(progs, cleanupSignatureProduct(e)...)
 	// the zero value returned on failure, for every kind of result type, declared in the
@@ -337,6 +338,7 @@ func CheckC04(e *Env) int {
 	rep := NewReport(e, "C04", "exploration", "success-path calls of injectors with 0..10 cleanup providers (chains, diamonds, siblings, mixed with struct/field/value steps): returned cleanup non-nil, nothing released before the caller invokes it, then every acquired cleanup exactly once in reverse acquisition order and before anything it was built from; distinct = distinct feature signature")
 	progs := genPool(e, "u", e.tierN(120, 1500), stressTweak)
 	progs = append(progs, cleanupChains(e)...)
+	progs = append(progs, sameNameCleanupFamily()...)
 	progs = append(progs, cleanupSignatureProduct(e)...)
 	results := RunPool(e, progs, PoolOpts{Execute: true, Name: "c04"})
 	for _, pr := range results {
